@@ -430,11 +430,52 @@ func conjunctsAllNilTests(info *types.Info, e ast.Expr, out map[types.Object]boo
 	return true
 }
 
+// c04Budget: the retry budget of a second-phase request is the one configured for that request: every backoff
+// constructed on the way (in the function or in helpers of the package analysed in its context) takes its MaxRetries
+// from config.<Phase>RetryCount, the phase being the function's own (Commit / Rollback), not the other one's.
+func c04Budget(r *core.Run, fi *core.FuncInfo) {
+	w := r.W
+	key := core.ShortKey(fi.Obj)
+	own, other := fi.Obj.Name()+"RetryCount", "RollbackRetryCount"
+	if fi.Obj.Name() == "Rollback" {
+		other = "CommitRetryCount"
+	}
+	res := (&flow.Spec{W: w, Depth: 0, Inline: 3, Classify: func(pkg *packages.Package, call *ast.CallExpr, callee *types.Func) []flow.Tag {
+		if core.IsPkgFunc(callee, core.Module+"/pkg/util/backoff", "New") && len(call.Args) == 2 {
+			return []flow.Tag{"bnew"}
+		}
+		return nil
+	}}).Analyze(fi)
+	n := 0
+	for _, cp := range res.Calls {
+		if !inSet("bnew", cp.Tags...) {
+			continue
+		}
+		n++
+		r.Sites++
+		at := cp.Fn
+		if at == nil {
+			at = fi
+		}
+		o, ok := litFieldOrigin(at, cp.Call.Args[1], "MaxRetries", 4)
+		if ok && at != fi {
+			// in the helper's terms: translate its parameters into what this function passes
+			o = originViaStr(fi, at, o, 4)
+		}
+		r.Check(ok && strings.Contains(o, "."+own) && !strings.Contains(o, "."+other), "C04.retry", key+" : retry budget is the configured "+own, w.Pos(cp.Call.Pos()), "MaxRetries <- "+o,
+			"the retry budget of "+fi.Obj.Name()+" derives from "+o+", not from the configured "+own+": with the two counts configured differently the request is retried fewer (or more) times than configured")
+	}
+	if n == 0 {
+		r.Bad("C04.retry", key+" : retry budget is the configured "+own, w.Pos(fi.Decl.Pos()), "no backoff is constructed for the second-phase request")
+	}
+}
+
 // c04EndRequest: rules on GlobalTransactionManager.Commit / Rollback.
 func c04EndRequest(r *core.Run, fi *core.FuncInfo) {
 	w := r.W
 	info := fi.Pkg.TypesInfo
 	key := core.ShortKey(fi.Obj)
+	c04Budget(r, fi)
 	isWrap := func(f *types.Func) bool {
 		if f == nil || f.Pkg() == nil || f.Pkg().Path() != "github.com/pkg/errors" {
 			return false
